@@ -521,6 +521,107 @@ func checkOpDispatch(c *Ctx) {
 			}
 		}
 	}
+	// the table idiom: the unmarshaler calls an element of a package-level array / map of factories
+	// indexed by the type; the cases are then the entries the package initialiser stores into that table
+	for _, cl := range Calls(fn) {
+		var tbl *ssa.Global
+		if ld, isLd := cl.Instr.Common().Value.(*ssa.UnOp); isLd {
+			if ia, isIA := ld.X.(*ssa.IndexAddr); isIA {
+				tbl, _ = ia.X.(*ssa.Global)
+			}
+		}
+		if lk, isLk := cl.Instr.Common().Value.(*ssa.Lookup); isLk {
+			if ld, isLd := lk.X.(*ssa.UnOp); isLd {
+				tbl, _ = ld.X.(*ssa.Global)
+			}
+		}
+		if ex, isEx := cl.Instr.Common().Value.(*ssa.Extract); isEx {
+			if lk, isLk := ex.Tuple.(*ssa.Lookup); isLk {
+				if ld, isLd := lk.X.(*ssa.UnOp); isLd {
+					tbl, _ = ld.X.(*ssa.Global)
+				}
+			}
+		}
+		if tbl == nil || tbl.Pkg == nil {
+			continue
+		}
+		initFn := tbl.Pkg.Func("init")
+		if initFn == nil {
+			continue
+		}
+		factoryType := func(v ssa.Value) string {
+			var f *ssa.Function
+			switch x := v.(type) {
+			case *ssa.Function:
+				f = x
+			case *ssa.MakeClosure:
+				f, _ = x.Fn.(*ssa.Function)
+			}
+			if f == nil {
+				return ""
+			}
+			for _, b := range f.Blocks {
+				for _, ins := range b.Instrs {
+					if al, isAl := ins.(*ssa.Alloc); isAl && al.Heap {
+						return typeShortName(al.Type())
+					}
+				}
+			}
+			return ""
+		}
+		for _, b := range initFn.Blocks {
+			for _, ins := range b.Instrs {
+				switch x := ins.(type) {
+				case *ssa.Store:
+					ia, isIA := x.Addr.(*ssa.IndexAddr)
+					if !isIA || ia.X != ssa.Value(tbl) {
+						// a literal built in a temporary and copied into the global
+						if isIA {
+							if al, isAl := ia.X.(*ssa.Alloc); isAl {
+								copied := false
+								for _, r := range *al.Referrers() {
+									if ld, isLd := r.(*ssa.UnOp); isLd {
+										for _, r2 := range *ld.Referrers() {
+											if st2, isSt := r2.(*ssa.Store); isSt && st2.Addr == ssa.Value(tbl) {
+												copied = true
+											}
+										}
+									}
+								}
+								if !copied {
+									continue
+								}
+							} else {
+								continue
+							}
+						} else {
+							continue
+						}
+					}
+					if k, isK := constInt(ia.Index); isK {
+						if t := factoryType(x.Val); t != "" {
+							caseType[k] = t
+						}
+					}
+				case *ssa.MapUpdate:
+					fromTbl := false
+					for _, r := range referrersOf(x.Map) {
+						if st2, isSt := r.(*ssa.Store); isSt && st2.Addr == ssa.Value(tbl) {
+							fromTbl = true
+						}
+					}
+					if !fromTbl {
+						continue
+					}
+					if k, isK := constInt(x.Key); isK {
+						if t := factoryType(x.Value); t != "" {
+							caseType[k] = t
+						}
+					}
+				}
+			}
+		}
+	}
 	c.Sites += len(caseType)
 	pos := w.FnPos(fn)
 	typeSeen := map[string]int64{}
